@@ -68,11 +68,12 @@ pub fn run_with_timeout(mut cmd: Command, timeout: Duration) -> (Option<i32>, St
     let t1 = std::thread::spawn(move || { let mut s = Vec::new(); let _ = so.read_to_end(&mut s); s });
     let t2 = std::thread::spawn(move || { let mut s = Vec::new(); let _ = se.read_to_end(&mut s); s });
     let t0 = Instant::now();
+    let mut killed = false;
     let code = loop {
         match p.0.try_wait() {
             Ok(Some(st)) => break st.code(),
             Ok(None) => {
-                if t0.elapsed() > timeout { let _ = p.0.kill(); let _ = p.0.wait(); break None; }
+                if t0.elapsed() > timeout { let _ = p.0.kill(); let _ = p.0.wait(); killed = true; break None; }
                 std::thread::sleep(Duration::from_millis(2));
             }
             Err(_) => break None,
@@ -80,8 +81,21 @@ pub fn run_with_timeout(mut cmd: Command, timeout: Duration) -> (Option<i32>, St
     };
     let mut out = String::from_utf8_lossy(&t1.join().unwrap_or_default()).into_owned();
     out.push_str(&String::from_utf8_lossy(&t2.join().unwrap_or_default()));
+    if killed { out.push_str(TIMEOUT_MARK); }
     (code, out)
 }
+
+/// Run a tool to completion; a run that does not finish within `first` is repeated once with the
+/// much longer `second` limit (a loaded machine is not a property failure). Returns
+/// (exit code, output, infrastructure): `infrastructure` = true when even the second run did not finish.
+pub fn run_patiently(make: impl Fn() -> Command, first: Duration, second: Duration) -> (Option<i32>, String, bool) {
+    let (code, out) = run_with_timeout(make(), first);
+    if code.is_some() || !out.ends_with(TIMEOUT_MARK) { return (code, out, false); }
+    let (code, out) = run_with_timeout(make(), second);
+    let infra = code.is_none() && out.ends_with(TIMEOUT_MARK);
+    (code, out, infra)
+}
+pub const TIMEOUT_MARK: &str = "[harness: time limit reached, process killed]";
 
 /// A loopback port that was free a moment ago.
 pub fn free_port() -> u16 {
